@@ -47,7 +47,9 @@ class Repartition(Expr):
             or self.partition_size is not None
         ):
             x = self.optimize(fuse=False)
-            return x._divisions()
+            # not ``_divisions()``: a partition-filtered source only applies
+            # its selection in the ``divisions`` property
+            return x.divisions
         return self.new_divisions
 
     @property
